@@ -17,6 +17,9 @@ What is reported:
         data-before-final-headers           D17b: a server sent DATA / END_STREAM before its response headers
         content-length-mismatch             a body that contradicts the content-length the same endpoint sent
         content-length-not-a-number         D50: the sender passed on a content-length that is no decimal number
+        body-on-bodiless-message            D51: the sender put a body on a 204 / 304 response or on the response to HEAD
+        informational-hidden-behind-stripped-field   D53: a 1xx block behind a connection-specific field that normalisation
+                                            strips is not recognised as informational by the sender (END_STREAM allowed)
         header-list-exceeds-peer-limit      a header list larger than the receiver's advertised MAX_HEADER_LIST_SIZE
         setting-id-masked                   D39: hyperframe writes a setting identifier above 255 modulo 256
         ack-not-matched-to-its-frame        D8: the receiver had two SETTINGS frames of its own in flight; the ACK of
@@ -186,6 +189,10 @@ def oracle_C01(run):
                         kind = 'informational'
                     else:
                         kind = 'response'
+                if kind == 'informational' and args and not rulebook.to_bytes(args[0][0]).lstrip().startswith(b':'):
+                    # D53: the library decides "informational?" on the list as given (a regular field first: no), then
+                    # normalisation strips that connection-specific field and a 1xx block goes out — possibly with END_STREAM
+                    taint(c, sid, 'informational-hidden-behind-stripped-field')
                 S['hdr'].setdefault(sid, []).append((kind, hs))
                 if any(op.get(k2) is not None for k2 in ('pw', 'pd', 'pe')):
                     S['prio'].setdefault(sid, []).append((op.get('pw') if op.get('pw') is not None else 16,
@@ -193,6 +200,10 @@ def oracle_C01(run):
                 S['biggest'][sid] = max(S['biggest'].get(sid, 0), _hdr_list_size(hs))
                 if _hdr_list_size(hs) > _limit(obs['snap_before']['remote'].get(6), None):
                     S['over_limit'].add(sid)                 # larger than the limit the peer had advertised by then
+                if kind == 'response' and lead in (b'204', b'304'):
+                    S.setdefault('nobody', set()).add(sid)          # a response that has no body whatever follows
+                if kind == 'request' and any(n == b':method' and v == b'HEAD' for n, v in hs):
+                    S.setdefault('head', set()).add(sid)            # the answer to it has no body
                 if kind in ('request', 'response'):
                     final_sent.add((c, sid))
                     cl = [v for n, v in hs if n == b'content-length']
@@ -242,9 +253,13 @@ def oracle_C01(run):
             new_iws = any(f['type'] == wire.SETTINGS and not f['flags'] & 1 and
                           any(f['payload'][j:j + 2] == b'\x00\x04' for j in range(0, len(f['payload']), 6)) for f in new)
             setting_dependent = any(m in msg for m in ('Received pushed stream', 'Oversized header block', 'Max outbound streams',
-                                                       'Flow control', 'flow control', 'frame size', 'Max inbound'))
+                                                       'Flow control', 'flow control', 'frame size', 'Max inbound', 'shrink table size'))
             if cls == 'InvalidBodyLengthError' and any(s in X['S']['cl'] for s in sids):
                 cause = 'content-length-mismatch'
+            elif cls == 'InvalidBodyLengthError' and any(s in X['S'].get('nobody', ()) or s in Y['S'].get('head', ()) for s in sids):
+                cause = 'body-on-bodiless-message'
+            elif 'informational-hidden-behind-stripped-field' in causes and 'informational' in msg:
+                cause = 'informational-hidden-behind-stripped-field'
             elif 'content-length-not-a-number' in causes and 'Invalid content-length header' in msg:
                 cause = 'content-length-not-a-number'
             elif cls == 'DenialOfServiceError' and 'header' in msg.lower() and any(s in X['S']['over_limit'] for s in sids):
